@@ -295,9 +295,10 @@ def render_node(n, scopes, env, pbstack):
                     return render(body, scopes, env, pbstack)
             elif kind == "with":
                 if truthy(v, False):
-                    return render(body, [Scope(v, "with")] + scopes, env, pbstack)
+                    return render(body, [Scope(v, "with", params=({extra: v} if isinstance(extra, str) else {}))] + scopes, env, pbstack)
             elif kind == "each":
-                node = {"t": "each", "arg": arg, "body": body, "else": None, "bp": []}
+                # `extra` carries the block parameters of a link opened with `as |a b|`
+                node = {"t": "each", "arg": arg, "body": body, "else": None, "bp": list(extra) if isinstance(extra, (list, tuple)) else []}
                 if (isinstance(v, list) or isinstance(v, dict)) and v:
                     return render_node(node, scopes, env, pbstack)
         if n.get("else") is not None:
@@ -491,10 +492,15 @@ def print_node(rng, n):
             b = print_nodes(rng, body)
             if a is None or b is None:
                 return None
+            bp = ""
+            if kind == "each" and isinstance(extra, (list, tuple)) and extra:
+                bp = " as |" + " ".join(extra) + "|"
+            elif kind == "with" and isinstance(extra, str):
+                bp = " as |" + extra + "|"
             if i == 0:
-                out += "{{#" + kind + " " + a + "}}" + b
+                out += "{{#" + kind + " " + a + bp + "}}" + b
             else:
-                out += "{{else " + kind + " " + a + "}}" + b
+                out += "{{else " + kind + " " + a + bp + "}}" + b
         e = print_else(rng, n.get("else"))
         if e is None:
             return None
